@@ -2,7 +2,9 @@
    correspondence still runs when a proof breaks.  Everything that can be read off the source is
    taken from gen/GenRpc.v (regenerated from /repo on every run). *)
 From Coq Require Import List Arith NArith Bool.
-From SV Require Import lib.Bytes lib.RpcTypes gen.GenRpc.
+From SV Require Import lib.Bytes.
+From SV Require Import lib.RpcTypes.
+From SV Require Import gen.GenRpc.
 Import ListNotations.
 Open Scope N_scope.
 
